@@ -103,10 +103,19 @@ func main() {
 	rep := report{Property: p.ID, Seed: *seed, Tier: *tier, Rule: p.Rule, Tags: map[string]int{}, KnownHits: map[string]int{}, Failures: []failure{}, Samples: []string{}}
 	seen := map[[16]byte]bool{}
 	handle := func(line string) {
+		sc0 := scribbleCalls
 		o, err := runOne(p, line)
 		if err != nil {
 			rep.HarnessPanic = append(rep.HarnessPanic, err.Error())
 			return
+		}
+		if o.Fail == "" && scribbleCalls != sc0 {
+			scribbleOn = false
+			o2, err2 := runOne(p, line)
+			scribbleOn = true
+			if err2 == nil && Render(o2.Impl) != Render(o.Impl) {
+				o.Fail = "overwriting the caller's input buffers after the calls returned changed a later result (state or output aliases an input buffer): without the overwrites the implementation returns " + Render(o2.Impl)
+			}
 		}
 		rep.Evaluations++
 		h := sha256.Sum256([]byte(line))
